@@ -40,6 +40,8 @@ KINDS = {
             10 ** 24),
     "fee": ("{| tb_fee := fun x => (x * 10 / 100)%%Z; tb_sink := tok_addr %d%%nat; tb_heavy := false; tb_false := false; tb_burn := false; tb_pos := true |}",
             1000),
+    "false": ("{| tb_fee := fun _ => 0%Z; tb_sink := Module; tb_heavy := false; tb_false := true; tb_burn := false; tb_pos := false |}",
+              1000),
     "heavy": ("{| tb_fee := fun _ => 0%Z; tb_sink := Module; tb_heavy := true; tb_false := false; tb_burn := false; tb_pos := false |}",
               10 ** 24),
 }
